@@ -92,7 +92,7 @@ func runFlags(c *Ctx) {
 	emit := func(args []string) {
 		line, p := flagsLine(args)
 		if p != nil {
-			c.Violation("(flagspanic %s)", hexList(args))
+			c.Violation("%s", cliCaseLine("cli", args, "", nil))
 			return
 		}
 		c.Emit("%s", line)
@@ -143,6 +143,11 @@ func runLR(c *Ctx) {
 		if len(src) > 4000 {
 			return
 		}
+		defer func() {
+			if r := recover(); r != nil {
+				c.Violation("%s", libCase(src, nil, nil))
+			}
+		}()
 		chars, offs := gojq.VerifC08Lex(src)
 		status, err := gojq.VerifC08ParseStatus(src)
 		eo := -1
@@ -150,7 +155,12 @@ func runLR(c *Ctx) {
 			eo = pe.Offset
 		}
 		cs := make([]string, 0, len(chars))
-		for _, ch := range chars[:len(chars)-1] {
+		// the final eof (-1) is what the model's lexer returns anyway; a final 0 (a NUL byte in the source:
+		// goyacc maps every char <= 0 to $end but re-reads only when char < 0) is kept
+		if n := len(chars); n > 0 && chars[n-1] == -1 {
+			chars = chars[:n-1]
+		}
+		for _, ch := range chars {
 			cs = append(cs, strconv.Itoa(ch))
 		}
 		os := make([]string, len(offs))
@@ -179,6 +189,11 @@ func runLR(c *Ctx) {
 func runPreview(c *Ctx) {
 	g := &gen{r: c.Rng}
 	emitVal := func(v any) {
+		defer func() {
+			if r := recover(); r != nil {
+				c.Violation("%s", libCase(".", v, nil))
+			}
+		}()
 		tag := "other"
 		switch v.(type) {
 		case string:
